@@ -338,8 +338,8 @@ class C20(Prop):
                 res.fail(("registry", "names-table"), "after step %d %r: %r vs model %r" % (
                     n, st_, sorted(V.validators), sorted(names)))
                 return
-            for rid in list(table) + ["http://verif.test/never-registered#"]:
-                for spelling in (rid, rid.rstrip("#"), rid.rstrip("#") + "#"):
+            for rid in list(table) + ["http://verif.test/never-registered#", ""]:
+                for spelling in ((rid, rid.rstrip("#"), rid.rstrip("#") + "#") if rid else ("", "#")):
                     want, warn = self.model({"$schema": spelling}, None, table)
                     got, warned = select({"$schema": spelling})
                     if got is not want or warned != warn:
